@@ -58,6 +58,13 @@ type GP = Gen<Q>;
 type Lits = "a" | "b" | 1;
 type UsesLits = { l: Lits; r?: Rec };
 """, ['PQ', 'Tup', 'Rec', 'GP', 'UsesLits']),
+    ('hostile-names', """
+type toString = { v: string };
+type constructor = { t: toString; n?: constructor };
+type valueOf = { tag: "a"; c: constructor } | { tag: "b"; s: toString };
+type Holder = { a: toString; b: constructor };
+type Other = { v: valueOf[] };
+""", ['Holder', 'Other', 'toString', 'valueOf']),
     ('mutual3', """
 type X = { y?: Y; n: number };
 type Y = { z: Z | null };
@@ -153,8 +160,13 @@ def main(tier):
     jobs = []
     for name, src, parsers in MODULES:
         code = compile_module(name, src, parsers)
-        jobs.append({'name': name, 'kind': name, 'tier': tier, 'code': code, 'glue': valcheck.GLUE_IMPORTS, 'parsers': parsers, 'templates': TEMPLATES,
-                     'sequences': sequences(len(parsers), tier, rng), 'finalExport': True, 'source': src, 'maxPaths': 200000})
+        ps, same = list(parsers), []
+        if name in ('shared', 'discriminated'):
+            # a second parser with the display name of the first one but the type of the last one
+            same = [{'key': parsers[0] + '#2', 'of': parsers[-1], 'name': parsers[0]}]
+            ps.append(parsers[0] + '#2')
+        jobs.append({'name': name, 'kind': name, 'tier': tier, 'code': code, 'glue': valcheck.GLUE_IMPORTS, 'parsers': ps, 'sameName': same, 'templates': TEMPLATES,
+                     'sequences': sequences(len(ps), tier, rng), 'finalExport': True, 'source': src, 'maxPaths': 200000})
     # generated programs (checks/c01.py) bundled three at a time: they share the named types of the generator
     progs = c01.programs(tier, rng, style=0)
     rng.shuffle(progs)
@@ -212,7 +224,7 @@ def main(tier):
                 for ci, ti in enumerate(seq['ctxTemplates']):
                     U = res['universe'][ti]
                     pre.append([n for i, n in enumerate(U) if (v.get('model') or {}).get(f'bc{ci}_{i}')])
-                rj = {k: job[k] for k in ('name', 'kind', 'tier', 'code', 'glue', 'parsers', 'templates', 'finalExport')}
+                rj = {k: job.get(k) for k in ('name', 'kind', 'tier', 'code', 'glue', 'parsers', 'sameName', 'templates', 'finalExport')}
                 rj['concrete'] = {'seq': seq, 'pre': pre}
                 rr = run_harness(rj, valcheck.RT, timeout=120)
                 if not [x for x in rr.get('violations', []) if x['prop'] == PID]:
